@@ -38,7 +38,15 @@ func exec(op string) vlib.Res {
 
 func facts() map[string]any {
 	middleware.Reset()
-	dir, _ := os.MkdirTemp(os.Getenv("VERIF_DIR")+"/build/tmp-c11", "facts")
+	base := os.Getenv("VERIF_DIR")
+	if base == "" {
+		base = "/verif"
+	}
+	_ = os.MkdirAll(base+"/build/tmp-c11", 0o750)
+	dir, err := os.MkdirTemp(base+"/build/tmp-c11", "facts")
+	if err != nil {
+		dir, _ = os.MkdirTemp("", "c11facts")
+	}
 	defer os.RemoveAll(dir)
 	cfg := new(config.Config)
 	cfg.Directory = dir
